@@ -240,5 +240,5 @@ def units(tier):
     return [
         Unit("exhaustive-N-K", check, count=lambda t: len(_nk(t)), cases=_exh, shards=(16, 32),
              space="makerandCIJ_und/_dir, makeringlatticeCIJ: every (N,K), N<=%d, x %d seeds" % ((7, 3) if tier == "quick" else (9, 8))),
-        Unit("random-parameters", check, strategy=cases, examples=(6000, 40000), shards=(8, 16)),
+        Unit("random-parameters", check, strategy=cases, examples=(6000, 320000), shards=(8, 16)),
     ]
